@@ -20,7 +20,7 @@
   * Recursion that Python bounds by its recursion limit (`quadtree.__init__`) or that terminates
     for a reason the type system does not see (`search_wave`) takes a fuel argument; running out
     of fuel is the distinguished result `none` for the constructor and is shown impossible for
-    `search_wave` when called with the fuel `searchFuel` (Proofs/Locate.lean).
+    `search_wave` when called with the fuel `searchFuel` (Proofs/LocateWave.lean, `searchWave_fuel_enough`).
 -/
 namespace Model.Locate
 
